@@ -237,7 +237,7 @@ func runC02(c *Ctx) {
 		if r.Chance(1, 10) {
 			key = make([]byte, 32)
 		}
-		l := fmt.Sprintf("prep %s %08x %s %s %s", pc.name, r.U32(), hx(key), hx(iv), hx(keystream(key, iv, 8000)))
+		l := fmt.Sprintf("prep %s %08x %s %s %s", pc.name, r.U32(), hx(key), hx(iv), hx(keystream(key, iv, 16384)))
 		for _, p := range pc.params() {
 			if p == "" {
 				l += " -"
